@@ -120,25 +120,29 @@ Definition M_happend (h : hgo) (key : list L) : hgo * outcome :=
     | Err e => (h, Err e)
     end.
 
-(* the labels of the root index appended one by one, stopping at the first duplicate (IndexGO.extend) *)
-Fixpoint root_extend (ls vs : list L) : list L * outcome :=
+(* IndexGO.extend on the root index (always an index with a map), after fix c675c22: all labels are
+   validated against the index and against each other before any is appended *)
+Fixpoint root_valid (ls vs observed : list L) : bool :=
   match vs with
-  | [] => (ls, Ok tt)
-  | v :: r => if mem v ls then (ls, Err "KeyError") else root_extend (ls ++ [v]) r
+  | [] => true
+  | v :: r => negb (mem v ls || mem v observed) && root_valid ls r (observed ++ [v])
   end.
 
-(* IndexLevelGO.extend (index_level.py:819-851): depth check, root index extend (may stop half way),
-   then the other tree's children are copied below *)
+(* IndexLevelGO.extend (index_level.py:822-857, after fixes 4b2944d and c675c22): the other level must
+   have children, the depths must agree, THIS level must have children (all checked before anything is
+   mutated), the root index is extended as a whole or not at all, then the other tree's children are
+   copied below *)
 Definition M_hextend (h : hgo) (other : hgo) : hgo * outcome :=
-  match h_tree h, h_tree other with
-  | Node ls kids, Node ols okids =>
+  match h_tree other with
+  | Leaf _ => (h, Err "RuntimeError")
+  | Node ols okids =>
       if negb (h_depth h =? h_depth other) then (h, Err "RuntimeError") else
-      let '(ls', o) := root_extend ls ols in
-      match o with
-      | Ok _ => (mk_hgo (Node ls' (kids ++ okids)) (h_depth h), Ok tt)
-      | Err e => (mk_hgo (Node ls' kids) (h_depth h), Err e)
+      match h_tree h with
+      | Leaf _ => (h, Err "RuntimeError")
+      | Node ls kids =>
+          if root_valid ls ols [] then (mk_hgo (Node (ls ++ ols) (kids ++ okids)) (h_depth h), Ok tt)
+          else (h, Err "KeyError")
       end
-  | _, _ => (h, Err "RuntimeError")
   end.
 
 Inductive hop :=
